@@ -89,6 +89,42 @@ def main(tier, seed):
                     rep.violation("tie-free supervised training (%s): %s" % (metric, msg), it.desc(), key="resub:sup")
     bad = supcheck.corr(rep, "correspondence Model/Sup.sup_fit vs SupervisedOPF.fit on tie-free instances of every eligible metric", "C04", terms, expect, insts)
     rep.corr["sup_tie_free"] = dict(cases=len(terms), disagreements=None if bad is None else len(bad), distribution=stats)
+    # ---- the classifier `learn` leaves in the object is a supervised training too: on tie-free data it must give its own
+    #      stored training samples their labels (the samples it was fitted on, not rows exchanged afterwards)
+    from opfython.models.supervised import SupervisedOPF
+    NL = 40 if tier == "quick" else 1500
+    stats["learn"] = 0
+    for i in range(NL):
+        metric = rng.choice(["euclidean", "manhattan", "squared_euclidean", "chebyshev", "canberra"])
+        n, m = rng.randint(5, 9), rng.randint(2, 5)
+        dim = rng.randint(2, 3)
+        X = np.array([[rng.uniform(0.05, 9) for _ in range(dim)] for _ in range(n + m)])
+        Dl = metric_matrix(metric, X.tolist())
+        offd = [Dl[a][b] for a in range(n + m) for b in range(a + 1, n + m)]
+        if len(set(offd)) != len(offd) or min(offd) <= 0:
+            continue
+        Yall = np.array([1 + (j % 2) for j in range(n + m)]); rng.shuffle(Yall)
+        if len(set(Yall[:n].tolist())) < 2:
+            continue
+        n_it = rng.randint(1, 3)
+        opf = SupervisedOPF(distance=metric)
+        d = dict(metric=metric, X=X.tolist(), Y=Yall.tolist(), n_train=n, n_iterations=n_it)
+        try:
+            np.random.seed(rng.randint(0, 10 ** 6))
+            opf.learn(X[:n].copy(), Yall[:n].copy(), X[n:].copy(), Yall[n:].copy(), n_iterations=n_it)
+            feats = np.array([np.array(nd.features, dtype=float) for nd in opf.subgraph.nodes])
+            labs = [int(nd.label) for nd in opf.subgraph.nodes]
+            preds = [int(p) for p in opf.predict(feats.copy())]
+        except Exception:
+            continue      # e.g. the exchanged training set lost a class: outside C04
+        stats["learn"] += 1
+        rep.count_case(("learn", metric, X.tobytes(), n_it), True)
+        if preds != labs:
+            q = [j for j in range(len(labs)) if preds[j] != labs[j]][0]
+            nviol += 1
+            if nviol <= 3:
+                rep.violation("after learn (%s, tie-free): the kept classifier predicts %d for its own training sample %d, stored label %d" % (metric, preds[q], q, labs[q]),
+                              d, key="resub:learn")
     # ---- KNN-supervised: any data, ties included, any max_k
     NK = 80 if tier == "quick" else 6000
     for i in range(NK):
